@@ -119,6 +119,15 @@ claim("C13", "other",
       "symbolic execution + snapshot/overwrite-and-observe obligations decided by z3; buffer overlap via np.shares_memory",
       "DESIGN.md section 1, C13")
 
+claim("C01", "other",
+      "The real MPO construction pipeline (Op -> table -> dedup -> Hopcroft-Karp / Hungarian / QR decomposition -> numeric site tensors -> todense) with every term factor and "
+      "the offset symbolic; models and table structures enumerated (2-3 sites quick, 4 thorough; spin, electron, oscillator incl. shifted origin, multi-DoF site; duplicate "
+      "rows, repeated symbols, constant terms); adjacent swaps and two-swap sequences through try_swap_site. Obligations: dense identity for all factor values, label invariant, "
+      "operator charge, bond dimension = maximum matching at every cut.",
+      "Table structure/model enumerated, not symbolic; pivoted QR by contract (permutation and rank solver-chosen, float-tolerance band excluded); real factors in quick.",
+      "symbolic execution of the real construction code on z3-valued factors + contract stub for pivoted QR + z3",
+      "DESIGN.md section 1, C01")
+
 for pid in ["C%02d" % i for i in range(1, 21)]:
     if pid not in CHECKS:
         NA[pid] = "check not built yet (build in progress; see DESIGN.md)"
